@@ -116,7 +116,7 @@ def one_round(r):
 
 
 def cycles():
-    for shape in ('self', 'two', 'three-with-tail'):
+    for shape in ('self', 'self-through-depends_on', 'two', 'three-with-tail'):
         tmp = tempfile.mkdtemp(prefix='c17c-')
         try:
             called = []
@@ -134,6 +134,8 @@ def cycles():
                 j.command('true')
             if shape == 'self':
                 js[1]._dependencies.add(js[1])
+            elif shape == 'self-through-depends_on':
+                js[1].depends_on(js[0], js[1])
             elif shape == 'two':
                 js[0].depends_on(js[1])
                 js[1].depends_on(js[0])
